@@ -131,9 +131,11 @@ def val(t, j, unit=None, fmt=None):
     return {"t": t, "j": j, "unit": unit, "fmt": fmt}
 
 
-def fld(ident, fk, leaf, v=None, name=None, sg=False, edge=None, child=None, rty=None):
+def fld(ident, fk, leaf, v=None, name=None, sg=False, edge=None, child=None, rty=None, opt=False):
+    # opt (flatten fields only): the field's type is Option<Child> and holds Some(child); names,
+    # values and sample-group pairs are those of the child flattened directly
     return {"ident": ident, "fk": fk, "leaf": leaf, "val": v, "name": name, "sg": sg,
-            "edge": edge, "child": child, "rty": rty}
+            "edge": edge, "child": child, "rty": rty, "opt": opt}
 
 
 RUST_TY = {"u32": "u32", "u64": "u64", "bool": "bool", "f64": "f64", "dur": "Duration",
@@ -208,7 +210,7 @@ def struct_ty(name, level, v, mode, own, edges):
             lvl = level.lower()
             s = infl_prefix(lvl, k, long_) if kind == "prefix" else exact_prefix(lvl, k, long_)
             edge = {"kind": kind, "s": s}
-        fields.append(fld("f%d" % k, "flatten", "flatten", edge=edge, child=child))
+        fields.append(fld("f%d" % k, "flatten", "flatten", edge=edge, child=child, opt=(k % 3 == 1)))
     return {"name": name, "shape": "struct", "mode": mode, "style": sname,
             "cprefix": cprefix(level, pk), "fields": fields, "v": v}
 
@@ -305,7 +307,7 @@ def container_attrs(ty, extra=()):
 
 def field_ty(f):
     if f["fk"] == "flatten":
-        return f["child"]
+        return "Option<%s>" % f["child"] if f.get("opt") else f["child"]
     t = f["val"]["t"]
     if t.startswith("strenum:") or t.startswith("newtype:"):
         return t.split(":")[1]
@@ -336,7 +338,8 @@ def field_attrs(f):
 def field_init(f, k):
     """Rust expression building the field from the container seed `s` (k = field index)."""
     if f["fk"] == "flatten":
-        return "mk_%s(cs(s, %d))" % (f["child"], k)
+        inner = "mk_%s(cs(s, %d))" % (f["child"], k)
+        return "Some(%s)" % inner if f.get("opt") else inner
     v = f["val"]
     t, j = v["t"], v["j"]
     if t.startswith("strenum:"):
